@@ -11,6 +11,7 @@ package main
 //   rmrun W              run the queued removal of W to completion (asyncRemove)      -> ok | err
 //   impstep W            one asyncImport batch of W                                    -> fin | more | err
 //   cur                  symbolic name of the wallet in use, "-" if none
+//   x OP...              robust mode: run OP (any op above or a base op), output only done | PANIC … | HANG
 //   tx …                 as in led, amounts scaled by 10^6 (so that fees and dust limits are reachable)
 //
 // Argument tokens (STR): "-" empty | a:<ascii> literal | h:<hex> literal bytes | rep:<n>:<hexbyte>
@@ -30,6 +31,7 @@ import (
 	"runtime/debug"
 	"strconv"
 	"strings"
+	"time"
 
 	"github.com/golang/protobuf/ptypes/empty"
 	"github.com/massnetorg/mass-core/blockchain"
@@ -70,7 +72,7 @@ type apiExec struct {
 	ks      map[string]string // exported keystores by wallet name
 	rawc    string
 	raws    string
-	pending map[string]string // wallet id -> symbolic name to bind (imports)
+	poisoned bool // a panic or hang left the wallet database in an unknown state: abandon the environment
 }
 
 func (x *apiExec) env() *WEnv {
@@ -90,6 +92,12 @@ func (x *apiExec) fresh() {
 }
 
 func (x *apiExec) Reset() {
+	if x.poisoned {
+		// the panicking goroutine may still hold a wallet database transaction: do not touch that
+		// environment again (closing it could block), start a new one
+		x.e, x.poisoned = nil, false
+		return
+	}
 	if x.e != nil {
 		x.e.reset()
 		x.fresh()
@@ -97,7 +105,7 @@ func (x *apiExec) Reset() {
 }
 
 func (x *apiExec) Close() {
-	if x.e != nil {
+	if x.e != nil && !x.poisoned {
 		x.e.Close()
 	}
 }
@@ -437,6 +445,19 @@ func (x *apiExec) invoke(m string, a []string) string {
 		_, err := s.GetTransactionFee(ctx, &pb.GetTransactionFeeRequest{Amounts: x.smap(a[0]), Inputs: x.ins(a[1]), HasBinding: a[2] == "1"})
 		return classOf(err)
 	case "SendRawTransaction":
+		// behind the argument validation this handler hands the transaction to the node's
+		// ProcessTx (mempool acceptance, relay), which needs live node services: only requests that
+		// fail validation are driven through the handler
+		h := x.str(a[0])
+		if len(h)%2 != 0 {
+			h = "0" + h
+		}
+		if raw, err := hex.DecodeString(h); err == nil && len(raw) > 0 {
+			var mtx wire.MsgTx
+			if mtx.SetBytes(raw, wire.Packet) == nil {
+				return "node"
+			}
+		}
 		_, err := s.SendRawTransaction(ctx, &pb.SendRawTransactionRequest{Hex: x.str(a[0])})
 		return classOf(err)
 	case "GetRawTransaction":
@@ -534,6 +555,7 @@ func (x *apiExec) call(m string, a []string) string {
 	if cls == "bad-method" {
 		return "bad-op"
 	}
+	x.e.wm.VerifDrainTasks() // the step-wise harness runs imports/removals itself (impstep / rmrun)
 	if d := deepClasses[m]; d != nil && d[cls] && os.Getenv("VERIF_NODEEP") == "" {
 		cls = "deep"
 	}
@@ -541,10 +563,44 @@ func (x *apiExec) call(m string, a []string) string {
 	return "done"
 }
 
+// Exec runs one op under a watchdog: an op that does not return within apiOpTimeout is reported as
+// HANG (the follower or a handler blocked for good) and the environment is abandoned.
 func (x *apiExec) Exec(a []string) string {
+	if x.poisoned {
+		return "poisoned"
+	}
+	x.env()
+	ch := make(chan string, 1)
+	go func() {
+		out := ""
+		if p := guarded(func() { out = x.exec1(a) }); p != "" {
+			out = p
+		}
+		ch <- out
+	}()
+	var out string
+	select {
+	case out = <-ch:
+	case <-time.After(apiOpTimeout):
+		out = "HANG"
+	}
+	if out == "HANG" || strings.HasPrefix(out, "PANIC") {
+		x.poisoned = true
+	}
+	return out
+}
+
+const apiOpTimeout = 60 * time.Second
+
+func (x *apiExec) exec1(a []string) string {
 	e := x.env()
 	if len(a) == 0 {
 		return "bad-op"
+	}
+	if a[0] == "x" && len(a) >= 2 {
+		// robust mode: the op is executed, only "did not panic / did not hang" is observed
+		x.exec1(a[1:])
+		return "done"
 	}
 	switch {
 	case a[0] == "call" && len(a) >= 2:
@@ -590,21 +646,32 @@ func (x *apiExec) Exec(a []string) string {
 			return "bad-op"
 		}
 		e.wm.VerifDrainTasks()
-		return errTok(e.wm.VerifRemoveRun(id))
+		out := ""
+		if p := guarded(func() { out = errTok(e.wm.VerifRemoveRun(id)) }); p != "" {
+			return p
+		}
+		return out
 	case a[0] == "impstep" && len(a) == 2:
 		id, ok := e.wallets[a[1]]
 		if !ok {
 			return "bad-op"
 		}
 		e.wm.VerifDrainTasks()
-		fin, err := e.wm.VerifImportStep(id)
-		if err != nil {
-			return errTok(err)
+		out := ""
+		if p := guarded(func() {
+			fin, err := e.wm.VerifImportStep(id)
+			switch {
+			case err != nil:
+				out = errTok(err)
+			case fin:
+				out = "fin"
+			default:
+				out = "more"
+			}
+		}); p != "" {
+			return p
 		}
-		if fin {
-			return "fin"
-		}
-		return "more"
+		return out
 	case a[0] == "cur" && len(a) == 1:
 		id := e.wm.CurrentWallet()
 		if id == "" {
@@ -621,6 +688,17 @@ func (x *apiExec) Exec(a []string) string {
 			p := strings.Split(o, ":")
 			if len(p) >= 2 && p[1] != "0" {
 				p[1] = p[1] + apiAmountScale
+			}
+			if len(p) == 4 && p[2] == "bindbad" {
+				// binding template paid to holder p[0] whose 22-byte target has no address form
+				// (type byte 2): consensus accepts it, the node indexes it under the holder
+				ai, err := e.addr(p[0])
+				if err != nil {
+					return "err"
+				}
+				t := sha256.Sum256([]byte("badtarget:" + p[3]))
+				t[20], t[21] = 2, 32
+				p = []string{"raw", p[1], "0020" + hex.EncodeToString(ai.sh) + "16" + hex.EncodeToString(t[:22])}
 			}
 			outs[i] = strings.Join(p, ":")
 		}
